@@ -587,7 +587,9 @@ class Checker:
         ok = any(isinstance(n, ast.Assign) and src(n.targets[0]) == 'self.parent' and src(n.value) == sp.params[1] for n in walk_own(sp.node))
         rep.ob('R16.6', sp, 'self.parent = <argument>', ok, 'setParent does not store its argument as the parent')
         # setParent only links: the cost the growth loop stored for the node (with the planner's distance) is not recomputed behind its back
-        def writes_of(meth, seen):
+        def stores_of(meth, seen):
+            """(field, receiver text, method) of every attribute store the node method `meth` can perform, followed through calls of node methods on
+            any receiver (everything these methods handle is a node: parent.setChild(self), previous.removeChild(child), ...)"""
             f_ = self.node.methods.get(meth)
             if f_ is None or meth in seen:
                 return set()
@@ -595,20 +597,25 @@ class Checker:
             out = set()
             for n in walk_own(f_.node):
                 for t in (n.targets if isinstance(n, ast.Assign) else ([n.target] if isinstance(n, (ast.AugAssign, ast.AnnAssign)) else [])):
-                    b = t
-                    while isinstance(b, ast.Subscript):
-                        b = b.value
-                    if isinstance(b, ast.Attribute) and isinstance(b.value, ast.Name) and b.value.id == 'self':
-                        out.add(b.attr)
-                if isinstance(n, ast.Call) and isinstance(n.func, ast.Attribute) and isinstance(n.func.value, ast.Name) and n.func.value.id == 'self':
-                    out |= writes_of(n.func.attr, seen)
+                    for t_ in (t.elts if isinstance(t, (ast.Tuple, ast.List)) else [t]):
+                        b = t_
+                        while isinstance(b, ast.Subscript):
+                            b = b.value
+                        if isinstance(b, ast.Attribute):
+                            out.add((b.attr, src(b.value), meth))
+                if isinstance(n, ast.Call) and isinstance(n.func, ast.Name) and n.func.id == 'setattr' and len(n.args) >= 2 and \
+                        isinstance(n.args[1], ast.Constant):
+                    out.add((n.args[1].value, src(n.args[0]), meth))
+                if isinstance(n, ast.Call) and isinstance(n.func, ast.Attribute) and n.func.attr in self.node.methods:
+                    out |= stores_of(n.func.attr, seen)
             return out
-        w_sp = writes_of('setParent', set())
+
+        st_sp = stores_of('setParent', set())
+        w_sp = {f for (f, _r, _m) in st_sp}
+        via = sorted({m_ for (f, _r, m_) in st_sp if f == 'cost' and m_ != 'setParent'})
         rep.ob('R16.6', sp, 'setParent does not touch the stored cost', 'cost' not in w_sp,
-               'setParent (directly or through %s) rewrites self.cost: the cost the growth loop stored with the planner\'s distance function is replaced by '
-               'the node\'s own metric, so stored cost != parent cost + supplied distance whenever the two metrics differ'
-               % sorted(m_ for m_ in self.node.methods if m_ != 'setParent' and 'cost' in writes_of(m_, set()) and any(
-                   isinstance(c_, ast.Call) and isinstance(c_.func, ast.Attribute) and c_.func.attr == m_ for c_ in ast.walk(sp.node))))
+               'setParent (directly or through %s) rewrites a stored cost: the cost the growth loop stored for the node (with the planner\'s distance function) '
+               'is replaced behind its back, so stored cost != parent cost + supplied distance' % (via or 'its own body'))
         ini = self._m(self.node, '__init__')
         ok = ini.defaults.get('parent') is not None and src(ini.defaults['parent']) == 'None' and \
             any(isinstance(n, ast.Assign) and src(n.targets[0]) == 'self.parent' and src(n.value) == 'parent' for n in walk_own(ini.node))
